@@ -19,6 +19,7 @@ RULE = (
     "only by a dedicated worker that serves nothing else; automatic tasks unbound) run with max_time = 2*B where "
     "B = sum ceil(remaining/min eligible skill)+1 per task + #tasks + all absence steps + 5 is the sequential "
     "work bound: must end FINISHED_SUCCESS (bounded liveness). (infeasible) the same models with one unfinished "
+    'Teams may list a task without the task listing the team; a relay profile has one often-absent worker who must do everything, with helpers on some tasks. '
     "non-automatic task stripped of every eligible worker: must not report SUCCESS. Non-trivial = feasible model "
     "with an SS/FF/SF link whose predecessor was WORKING for at most one step or finished in the same step as "
     "its successor, or an infeasible variant; distinct by spec hash."
@@ -44,6 +45,7 @@ CFG_FEAS = gen.Cfg(
     abs_max=30,
     min_tasks=2,
     tie_rich=3,
+    onesided=3,  # teams that list a task without the task listing the team (BaseTeam(targeted_task_list=[...]))
     dup_names=0,  # the repair steps below edit skills per task index; with shared names they would leak to other tasks
 )
 
